@@ -21,15 +21,14 @@ extern void mpt_queue_shift(MPT_STRUCT(decode_queue) *qu)
 	}
 	pos = qu->_state.data.pos;
 	len = qu->_state.data.len;
-	if (pos || len) {
-		if (pos < curr) {
-			if (!(curr = pos)) {
-				return;
-			}
-			pos = 0;
-		} else {
-			pos -= curr;
+	/* keep message data and decoder scratch space */
+	if (pos < curr) {
+		if (!(curr = pos)) {
+			return;
 		}
+		pos = 0;
+	} else {
+		pos -= curr;
 	}
 	if (mpt_queue_crop(&qu->data, 0, curr) < 0) {
 		return;
